@@ -14,6 +14,10 @@ mkdir -p /tmp/mut-results
 run_one() {
   id="$1"; patch="$2"; target="$3"
   tools/try_mutant.sh "re-$id" "$patch" $(props_for "$target") 2>&1 | grep "^MUTANT" > "/tmp/mut-results/re-$id.txt"
+  # nothing caught by the quick tier: try the thorough tier of the targeted property
+  if ! grep -q "rc=1" "/tmp/mut-results/re-$id.txt"; then
+    tools/try_mutant.sh "reT-$id" "$patch" --tier thorough "$target" 2>&1 | grep "^MUTANT" | sed 's/ \(C[0-9][0-9]\) rc=/ \1 THOROUGH rc=/' >> "/tmp/mut-results/re-$id.txt"
+  fi
 }
 export -f run_one props_for
 LIST=()
@@ -27,6 +31,8 @@ def parse(path):
     for line in open(path):
         m = re.match(r"MUTANT \S+ (C\d\d) rc=(\d) ?(.*)", line.strip())
         if m: res[m.group(1)] = {"rc": int(m.group(2)), "detail": m.group(3)[:300]}
+        m = re.match(r"MUTANT \S+ (C\d\d) THOROUGH rc=(\d) ?(.*)", line.strip())
+        if m: res[m.group(1) + "(thorough tier)"] = {"rc": int(m.group(2)), "detail": m.group(3)[:300]}
         m = re.match(r"MUTANT \S+ (C\d\d) witness-fails (.*)", line.strip())
         if m: res.setdefault(m.group(1), {}).setdefault("witness_fails", []).append(m.group(2))
     return res
